@@ -131,7 +131,7 @@ def create_utc_property(name:str, docs:str) -> property:
         if not isinstance(value, date):
             raise TypeError(f"{name} takes a datetime in UTC, not {value}")
         self.pop(name)
-        self.add(name, tzp.localize_utc(value))
+        self.add(name, vDDDTypes(tzp.localize_utc(value)))
 
 
     return property(p_get, p_set, doc=docs)
